@@ -96,7 +96,9 @@ GvParse(s) ==
   ELSE LET e2 == TakeNumeric(s, e1 + 1)  rev == SubSeq(s, e1 + 1, e2 - 1) IN
        \* everything after the letter must be one run of ASCII digits
        IF e2 <= Len(s) \/ ~AllDigits(rev) THEN [ok |-> FALSE, major |-> major, minor |-> Upper(s[e1]), patch |-> -1, steps |-> 3]
-       ELSE [ok |-> TRUE, major |-> major, minor |-> Upper(s[e1]), patch |-> DecVal(rev), steps |-> 3]
+       \* a revision of ten digits and more may be beyond the implementation's integer (patch -2: accepted with its value or refused
+       \* with an error, never a panic or a loop)
+       ELSE [ok |-> TRUE, major |-> major, minor |-> Upper(s[e1]), patch |-> IF Len(rev) > 9 THEN -2 ELSE DecVal(rev), steps |-> 3]
 
 \* order on abstract versions [num (rank of the number), minor, patch]: number, then letter, then revision (missing = 0)
 P0(v) == IF v.patch < 0 THEN 0 ELSE v.patch
